@@ -1,6 +1,82 @@
-(* C02 -- placeholder until the lemmas land *)
-From Tola Require Import Py.Base Model.Fragment Model.Scaffold Model.Namer Model.Remap.
+(* C02 -- Curated layout follows the Pretext edits to within three texel widths.
+   Only statements, each closed by [exact] of a lemma from Proofs/.  PARTIAL:
+   proved here are the ingredients named in the property's anchors (error
+   length, exact cuts at the bait coordinate with strand-aware trimming, the
+   keep-flag order).  The global statement over a whole edit script (affine
+   core map, orientation, Pretext order, completion) is decided by the
+   correspondence of the whole pipeline model and the oracle on every run. *)
+From Tola Require Import Py.Base Model.Fragment Model.Scaffold Model.Lookup Model.OverlapResult
+  Model.Namer Model.Remap Proofs.NullMapAndCuts.
 
-Lemma C02_error_length_example : error_length (2300000000, 1000000) = 2301.
-Proof. vm_compute. reflexivity. Qed.
-Print Assumptions C02_error_length_example.
+(* error length = 1 + floor(bp per texel): strictly above the texel size, by at most one *)
+Theorem C02_error_length_spec : forall n d, 0 <= n -> 0 < d ->
+  d * (error_length (n, d) - 1) <= n < d * error_length (n, d).
+Proof. exact error_length_spec. Qed.
+Print Assumptions C02_error_length_spec.
+
+(* a cut trims the first row of a result exactly to the bait start: the result
+   then starts at the bait start; a forward contig loses its first bases, a
+   reverse (or unstranded) contig its last bases *)
+Theorem C02_trim_first_exact : forall r f t new r',
+  o_rows r = RF f :: t -> t <> [] ->
+  (forall g, last_opt (o_rows r) = Some (RF g) -> f_id g <> f_id f) ->
+  0 < start_overhang r ->
+  trim_fragment r f false true = Ok (new, r') ->
+  o_start r' = f_start (o_bait r)
+  /\ o_end r' = o_end r
+  /\ f_len new = f_len f - start_overhang r
+  /\ (if f_strand f =? 1 then f_start new = f_start f + start_overhang r /\ f_end new = f_end f
+      else f_end new = f_end f - start_overhang r /\ f_start new = f_start f)
+  /\ o_rows r' = RF new :: t.
+Proof. exact trim_first_exact. Qed.
+Print Assumptions C02_trim_first_exact.
+
+Theorem C02_trim_last_exact : forall r f t new r',
+  o_rows r = t ++ [RF f] -> t <> [] ->
+  (forall g, hd_error (o_rows r) = Some (RF g) -> f_id g <> f_id f) ->
+  0 < end_overhang r ->
+  trim_fragment r f true false = Ok (new, r') ->
+  o_end r' = f_end (o_bait r)
+  /\ o_start r' = o_start r
+  /\ f_len new = f_len f - end_overhang r
+  /\ (if f_strand f =? 1 then f_end new = f_end f - end_overhang r /\ f_start new = f_start f
+      else f_start new = f_start f + end_overhang r /\ f_end new = f_end f)
+  /\ o_rows r' = t ++ [RF new].
+Proof. exact trim_last_exact. Qed.
+Print Assumptions C02_trim_last_exact.
+
+(* the first / last piece keeps the outer contig end *)
+Theorem C02_trim_first_kept : forall r f t new r',
+  o_rows r = RF f :: t -> t <> [] -> (forall g, last_opt (o_rows r) = Some (RF g) -> f_id g <> f_id f) ->
+  trim_fragment r f true true = Ok (new, r') ->
+  f_start new = f_start f /\ f_end new = f_end f /\ o_start r' = o_start r /\ o_end r' = o_end r.
+Proof. exact trim_first_kept. Qed.
+Print Assumptions C02_trim_first_kept.
+
+(* the order in which the pieces of a cut contig are visited is the order of
+   the coordinates the trimmed copies will actually have *)
+Theorem C02_start_if_trimmed_agrees : forall r f t new r' st,
+  o_rows r = RF f :: t -> t <> [] ->
+  (forall g, last_opt (o_rows r) = Some (RF g) -> f_id g <> f_id f) ->
+  f_strand f = 1 -> 0 < start_overhang r ->
+  fragment_start_if_trimmed r f = Ok st -> trim_fragment r f false true = Ok (new, r') ->
+  f_start new = st.
+Proof. exact start_if_trimmed_agrees. Qed.
+Print Assumptions C02_start_if_trimmed_agrees.
+Theorem C02_start_if_trimmed_agrees_rev : forall r f t new r' st,
+  o_rows r = t ++ [RF f] -> t <> [] ->
+  (forall g, hd_error (o_rows r) = Some (RF g) -> f_id g <> f_id f) ->
+  f_strand f <> 1 -> 0 < end_overhang r ->
+  fragment_start_if_trimmed r f = Ok st -> trim_fragment r f true false = Ok (new, r') ->
+  f_start new = st.
+Proof. exact start_if_trimmed_agrees_rev. Qed.
+Print Assumptions C02_start_if_trimmed_agrees_rev.
+
+(* the keep-flag order of the pinned commit fails on every cut of a
+   reverse-strand contig; the repaired order cuts it at the bait boundary
+   (repaired by a fix: commit) *)
+Theorem C02_legacy_refuted :
+  exists (b : bstate) (k : fkey), cut_fragments (mkCfg false true true true) b k = Err ValueError
+    /\ exists b', cut_fragments repaired b k = Ok b' /\ b_cuts b' = b_cuts b + 1.
+Proof. exact legacy_keep_flags_refuted. Qed.
+Print Assumptions C02_legacy_refuted.
